@@ -26,6 +26,7 @@ type FileStyle struct {
 	FinalEOL bool
 	Upper    int  // per-mille of upper-case nucleotides
 	PlusID   bool // FASTQ: "+id" separator lines
+	BOM      bool // the file starts with a UTF-8 byte order mark (the readers skip it)
 }
 
 func (st FileStyle) eol() string {
@@ -76,6 +77,29 @@ func RandDef(r *rand.Rand, kind int) string {
 	}
 }
 
+// LongDef returns a definition of about n bytes: a JSON object (asJSON) or plain words.
+func LongDef(r *rand.Rand, n int, asJSON bool) string {
+	var sb strings.Builder
+	if asJSON {
+		sb.WriteString(`{"count":` + fmt.Sprint(1+r.Intn(50)) + `,"merged_sample":{`)
+		for i := 0; sb.Len() < n-20; i++ {
+			if i > 0 {
+				sb.WriteByte(',')
+			}
+			fmt.Fprintf(&sb, `"sample_%04d":%d`, i, 1+r.Intn(999))
+		}
+		sb.WriteString("}}")
+		return sb.String()
+	}
+	for sb.Len() < n {
+		if sb.Len() > 0 {
+			sb.WriteByte(' ')
+		}
+		sb.WriteString([]string{"Homo", "sapiens", "16S", "rRNA", "partial", "sequence"}[r.Intn(6)])
+	}
+	return sb.String()
+}
+
 // RandRec draws a record for the format.
 func RandRec(r *rand.Rand, format string, i int, hostile bool, maxLen int) SeqRec {
 	rec := SeqRec{ID: fmt.Sprintf("%s_%d", RandID(r, hostile && (format == "fasta" || format == "fastq")), i)}
@@ -92,6 +116,11 @@ func RandRec(r *rand.Rand, format string, i int, hostile bool, maxLen int) SeqRe
 			k = 1
 		}
 		rec.Def = RandDef(r, k)
+		if r.Intn(40) == 0 {
+			// a title line longer than the 4 KiB / 64 KiB buffers of the usual line readers (a record
+			// carrying a large merged_* map has such a title)
+			rec.Def = LongDef(r, []int{4000, 4090, 4096, 4100, 8200, 66000}[r.Intn(6)], k == 3)
+		}
 		if format == "fastq" {
 			rec.Qual = make([]byte, l)
 			mode := r.Intn(6)
@@ -149,6 +178,9 @@ func caseMix(r *rand.Rand, s string, permille int) string {
 func Render(r *rand.Rand, recs []SeqRec, st FileStyle) []byte {
 	var sb strings.Builder
 	eol := st.eol()
+	if st.BOM {
+		sb.WriteString("\xef\xbb\xbf")
+	}
 	for _, rec := range recs {
 		seq := caseMix(r, rec.Seq, st.Upper)
 		switch st.Format {
